@@ -187,7 +187,7 @@ def run(ch, idx, tier):
     oplog = []
 
     # ---- workload ---------------------------------------------------------------------
-    names = [n for n in PROJECTS if n in _CORPUS]
+    names = [n for n in PROJECTS if n in _CORPUS] + corpus.generated_names()
     name = ch.pick("project", names)
     entry = _CORPUS[name]
     P = entry.project()
